@@ -74,7 +74,7 @@ func runDriveConc(args []string) int {
 		maxRet := lay[k-1].Step * lay[k-1].N
 		mp := Mapping{B: drvBases[rnd.Intn(len(drvBases))], Scale: 1}
 		mp.B -= mp.B % lcmAll(lay)
-		now := maxRet + 1000 + rnd.Int63n(3000)
+		now := maxRet + 2*lay[len(lay)-1].Step + 1000 + rnd.Int63n(3000)
 		cmd.VerifNow = func() wt.Timestamp { return wt.Timestamp(mp.B + now) }
 		base := filepath.Join(root, fmt.Sprintf("r%d", r))
 		nfiles := 6 + rnd.Intn(10)
